@@ -174,6 +174,46 @@ theorem parse_eq_automaton (genes : List (Gene ι)) :
   simp only [automaton]
   rw [h]; simp [finish, finishGo, toProgram, pItems]
 
+/-! ### Every well-shaped program is the translation of a genome -/
+
+theorem unparse_append (a b : List (Tree ι)) : unparse (a ++ b) = unparse a ++ unparse b := by
+  induction a with
+  | nil => simp [unparse]
+  | cons t ts ih => simp [unparse, ih, List.append_assoc]
+
+theorem parse_unparse_aux (p : List (Tree ι)) (h : WS opens p) :
+    ∀ (top : Bool) (tail : List (Gene ι)),
+      pItems opens top (unparse p ++ tail) = p ++ pItems opens top tail ∧
+      pRest opens top (unparse p ++ tail) = pRest opens top tail := by
+  refine WS.rec (opens := opens)
+    (motive_1 := fun p _ => ∀ (top : Bool) (tail : List (Gene ι)),
+      pItems opens top (unparse p ++ tail) = p ++ pItems opens top tail ∧
+      pRest opens top (unparse p ++ tail) = pRest opens top tail)
+    (motive_2 := fun n bs _ => ∀ (tail : List (Gene ι)),
+      bItems opens n (unparse bs ++ tail) = bs ∧ bRest opens n (unparse bs ++ tail) = tail)
+    ?_ ?_ ?_ ?_ h
+  · intro top tail; simp [unparse]
+  · intro i bs rest _ _ ihb ihr top tail
+    have e : unparse (Tree.instr i :: (bs ++ rest)) ++ tail =
+        Gene.instr i :: (unparse bs ++ (unparse rest ++ tail)) := by
+      simp [unparse, unparseT, unparse_append, List.append_assoc]
+    rw [e, pItems_instr, pRest_instr, (ihb _).1, (ihb _).2, (ihr top tail).1, (ihr top tail).2]
+    simp [List.append_assoc]
+  · intro tail; simp [unparse]
+  · intro n b bs _ _ ihw ihb tail
+    have e : unparse (Tree.block b :: bs) ++ tail = unparse b ++ (Gene.close :: (unparse bs ++ tail)) := by
+      simp [unparse, unparseT, List.append_assoc]
+    rw [e, bItems_succ, bRest_succ, (ihw false _).1, (ihw false _).2]
+    simp only [pItems_close_inner, pRest_close_inner, List.append_nil]
+    exact ⟨by rw [(ihb tail).1], (ihb tail).2⟩
+
+/-- **Surjectivity onto well-shaped programs** (so `wellShaped_parse` is not vacuous and the
+    translation loses nothing): translating `unparse p` gives back `p`. -/
+theorem parse_unparse (p : List (Tree ι)) (h : WS opens p) : toProgram opens (unparse p) = p := by
+  have := (parse_unparse_aux opens p h true []).1
+  rw [List.append_nil, pItems_nil, List.append_nil] at this
+  exact this
+
 /-! ### Non-vacuity / examples evaluated by the kernel -/
 section examples
 /-- instruction set of the examples: `(id, opens)` -/
